@@ -170,37 +170,52 @@ structure LagRsiState (α : Type) where
   l2s : List α
   l3s : List α
 
+/-- the four ladder deques keep at most three entries: drop the oldest when three are held -/
+def lagRsiTrim (s : LagRsiState α) : LagRsiState α :=
+  if 3 ≤ s.l0s.length then
+    { s with l0s := s.l0s.tail, l1s := s.l1s.tail, l2s := s.l2s.tail, l3s := s.l3s.tail } else s
+
+/-- the first two updates only push zeros -/
+def lagRsiFill (s : LagRsiState α) : LagRsiState α :=
+  { s with l0s := s.l0s ++ [nat 0], l1s := s.l1s ++ [nat 0], l2s := s.l2s ++ [nat 0], l3s := s.l3s ++ [nat 0] }
+
+/-- one step of the four-stage ladder (indices `prev = len-1` before the push, `prev+1` the value just pushed) -/
+def lagRsiPush (gamma : α) (s : LagRsiState α) (v : α) : M (LagRsiState α) := do
+  let prev ← usub s.l0s.length 1
+  let p0 ← getIdx s.l0s prev
+  let l0s := s.l0s ++ [(nat 1 - gamma) * v + gamma * p0]
+  let a ← getIdx l0s (prev + 1); let b ← getIdx l0s prev; let c ← getIdx s.l1s prev
+  let l1s := s.l1s ++ [-gamma * a + b + gamma * c]
+  let a ← getIdx l1s (prev + 1); let b ← getIdx l1s prev; let c ← getIdx s.l2s prev
+  let l2s := s.l2s ++ [-gamma * a + b + gamma * c]
+  let a ← getIdx l2s (prev + 1); let b ← getIdx l2s prev; let c ← getIdx s.l3s prev
+  let l3s := s.l3s ++ [-gamma * a + b + gamma * c]
+  pure { s with l0s := l0s, l1s := l1s, l2s := l2s, l3s := l3s }
+
+/-- CU and CD over the three adjacent pairs of the newest ladder values -/
+def lagRsiCuCd (x0 x1 x2 x3 : α) : α × α :=
+  let c1 : α × α := if x1 ≤ x0 then (x0 - x1, nat 0) else (nat 0, x1 - x0)
+  let c2 : α × α := if x2 ≤ x1 then (c1.1 + (x1 - x2), c1.2) else (c1.1, c1.2 + (x2 - x1))
+  if x3 ≤ x2 then (c2.1 + (x2 - x3), c2.2) else (c2.1, c2.2 + (x3 - x2))
+
+/-- `value = CU/(CU+CD)` unless CU+CD = 0 (then the previous value is kept) -/
+def lagRsiEmit (s : LagRsiState α) : M (LagRsiState α) := do
+  let last ← usub s.l0s.length 1
+  let x0 ← getIdx s.l0s last; let x1 ← getIdx s.l1s last; let x2 ← getIdx s.l2s last; let x3 ← getIdx s.l3s last
+  let c := lagRsiCuCd x0 x1 x2 x3
+  if !(c.1 + c.2 == nat 0) then do
+    let value := c.1 / (c.1 + c.2)
+    assertFinite value
+    pure { s with value := some value }
+  else pure s
+
 def lagRsiCore (N : Nat) : Core α where
   σ := LagRsiState α
   init := { value := none, l0s := [], l1s := [], l2s := [], l3s := [] }
-  step s v := do
-    let gamma : α := nat 2 / (nat N + nat 1)
-    let s := if 3 ≤ s.l0s.length then
-        { s with l0s := s.l0s.tail, l1s := s.l1s.tail, l2s := s.l2s.tail, l3s := s.l3s.tail } else s
-    if s.l0s.length < 2 then
-      pure { s with l0s := s.l0s ++ [nat 0], l1s := s.l1s ++ [nat 0], l2s := s.l2s ++ [nat 0],
-                    l3s := s.l3s ++ [nat 0] }
-    else do
-      let prev ← usub s.l0s.length 1
-      let p0 ← getIdx s.l0s prev
-      let l0s := s.l0s ++ [(nat 1 - gamma) * v + gamma * p0]
-      let a ← getIdx l0s (prev + 1); let b ← getIdx l0s prev; let c ← getIdx s.l1s prev
-      let l1s := s.l1s ++ [-gamma * a + b + gamma * c]
-      let a ← getIdx l1s (prev + 1); let b ← getIdx l1s prev; let c ← getIdx s.l2s prev
-      let l2s := s.l2s ++ [-gamma * a + b + gamma * c]
-      let a ← getIdx l2s (prev + 1); let b ← getIdx l2s prev; let c ← getIdx s.l3s prev
-      let l3s := s.l3s ++ [-gamma * a + b + gamma * c]
-      let last ← usub l0s.length 1
-      let x0 ← getIdx l0s last; let x1 ← getIdx l1s last; let x2 ← getIdx l2s last; let x3 ← getIdx l3s last
-      let (cu, cd) : α × α := if x1 ≤ x0 then (x0 - x1, nat 0) else (nat 0, x1 - x0)
-      let (cu, cd) : α × α := if x2 ≤ x1 then (cu + (x1 - x2), cd) else (cu, cd + (x2 - x1))
-      let (cu, cd) : α × α := if x3 ≤ x2 then (cu + (x2 - x3), cd) else (cu, cd + (x3 - x2))
-      let s := { s with l0s := l0s, l1s := l1s, l2s := l2s, l3s := l3s }
-      if !(cu + cd == nat 0) then do
-        let value := cu / (cu + cd)
-        assertFinite value
-        pure { s with value := some value }
-      else pure s
+  step s v :=
+    let s := lagRsiTrim s
+    if s.l0s.length < 2 then pure (lagRsiFill s)
+    else lagRsiPush (nat 2 / (nat N + nat 1)) s v >>= lagRsiEmit
   out s := pure s.value
   size s := s.l0s.length + s.l1s.length + s.l2s.length + s.l3s.length
 
